@@ -229,12 +229,29 @@ func replayTrace(harness string, tr *vsched.Trace, sites []report.Site, scratch,
 			rr.Reproduced = true
 		}
 		if expectStuck && res.Completed && len(res.Blocked) > 0 {
-			rr.Reproduced = true
+			// a natively blocked goroutine counts only if it is blocked inside the function
+			// in which the model leaves that thread
+			for _, th := range res.Blocked {
+				want := shortFn(tr.FinalFn[th])
+				if want == "" {
+					continue
+				}
+				for _, fn := range res.BlockedIn[th] {
+					if shortFn(fn) == want {
+						rr.Reproduced = true
+					}
+				}
+			}
 		}
 		if expectSpin && strings.Contains(fails, "livelock") {
 			rr.Reproduced = true
 		}
 		rr.Detail = fmt.Sprintf("completed=%v diverged=%q failures=%q blocked=%v", res.Completed, res.Diverged, fails, res.Blocked)
+		if expectStuck && len(res.Blocked) > 0 {
+			for _, th := range res.Blocked {
+				rr.Detail += fmt.Sprintf(" [T%d model-in=%s native-in=%v]", th, shortFn(tr.FinalFn[th]), shortFns(res.BlockedIn[th]))
+			}
+		}
 		if rr.Reproduced {
 			rr.Detail = "REPRODUCED on the native build: " + rr.Detail
 			return rr
@@ -285,6 +302,38 @@ func replayRace(harness string, sites []report.Site, dir string) replayResult {
 		}
 	}
 	return replayResult{Detail: "race detector reported a race, but not between the positions of the model"}
+}
+
+// shortFn reduces an SSA or runtime function name to its last identifier (method or function
+// name without package, receiver, type arguments and closure suffixes).
+func shortFn(s string) string {
+	if i := strings.Index(s, "["); i >= 0 {
+		s = s[:i]
+	}
+	s = strings.TrimRight(s, ".0123456789")
+	for strings.Contains(s, "$") {
+		s = s[:strings.LastIndex(s, "$")]
+	}
+	s = strings.TrimSuffix(s, ".func")
+	for {
+		j := strings.LastIndex(s, ".func")
+		if j < 0 {
+			break
+		}
+		s = s[:j]
+	}
+	if i := strings.LastIndexAny(s, ".)/"); i >= 0 {
+		s = s[i+1:]
+	}
+	return s
+}
+
+func shortFns(xs []string) []string {
+	var out []string
+	for _, x := range xs {
+		out = append(out, shortFn(x))
+	}
+	return out
 }
 
 // replaySaved re-runs the replay of a saved file (replay_cmd of a VIOLATION line).
